@@ -571,9 +571,14 @@ class TemplateASTTransformer(ASTTransformer):
         gens = []
         for generator in node.generators:
             # comprehension = (expr target, expr iter, expr* ifs)
+            if not gens:
+                # the outermost iterable is evaluated in the enclosing scope
+                iter_ = self.visit(generator.iter)
             self.locals.append(set())
-            gen = _new(_ast.comprehension, self.visit(generator.target),
-                       self.visit(generator.iter),
+            target = self.visit(generator.target)
+            if gens:
+                iter_ = self.visit(generator.iter)
+            gen = _new(_ast.comprehension, target, iter_,
                        [self.visit(if_) for if_ in generator.ifs],
                        getattr(generator, 'is_async', 0))
             gens.append(gen)
